@@ -12,7 +12,7 @@ use refchess::Pos;
 use serde_json::{json, Value};
 use std::cell::RefCell;
 
-pub const RULE: &str = "histories of 1..4 position commands sent to one engine (fresh per case) through the real handle_command (hook verif_handle_command), with ucinewgame / isready lines between them in 30% of the steps, and 30% of the later commands being the previous command word for word or continued by 1..3 further moves (as a GUI restates a game); each is 'startpos' or a six-field FEN written by the reference from a valid generated position with counters a real game can reach (fullmove 1..6000 weighted to 1, two-digit, 200..300 and four-digit values; halfmove clock 0..150 but never more than the plies played so far, 0 after a double push, and exactly on that bound in a quarter of the cases), followed by 'moves' and a reference-legal playout of 0..250 plies in UCI notation (castling as king move, promotions with piece letter); whitespace varied as the protocol allows. Oracle: engine board (hook verif_board) after EVERY command == reference position after the playout (placement, side, rights, ep convention, bitboard consistency); no panic. Non-trivial = a FEN that is not the start position and/or a move list containing a castle, ep capture or promotion; distinct by command text.";
+pub const RULE: &str = "histories of 1..4 position commands sent to one engine (fresh per case) through the real handle_command (hook verif_handle_command), with ucinewgame / isready lines between them in 30% of the steps, and 30% of the later commands being the previous command word for word or continued by 1..3 further moves (as a GUI restates a game); each is 'startpos' or a six-field FEN written by the reference from a valid generated position with counters a real game can reach (fullmove 1..6000 weighted to 1, two-digit, 200..300 and four-digit values; halfmove clock 0..150 but never more than the plies played so far, 0 after a double push, and exactly on that bound in a quarter of the cases), followed by 'moves' and a reference-legal playout of 0..250 plies in UCI notation (castling as king move, promotions with piece letter); whitespace varied as the protocol allows. A quarter of the commands that follow a game with a promotion are that game with one promotion made to ANOTHER piece (same squares, another letter), continued by 0..2 moves. Enumerated parts: 'grid-moves' (positions of the check-geometry and castling-rights grids followed by ONE move: every castle, en-passant capture, promotion letter, double push and corner capture of the position; quick tier a seed-dependent share) and 'castle-lookalikes' (moves spelt e1g1/e1c1/e8g8/e8c8/e1h1/e1a1/e8h8/e8a8 made by a rook or queen on e1/e8 with the mover's king at home with every subset of its rights, or away). Oracle: engine board (hook verif_board) after EVERY command == reference position after the playout (placement, side, rights, ep convention, bitboard consistency); no panic. Non-trivial = a FEN that is not the start position and/or a move list containing a castle, ep capture or promotion; distinct by command text.";
 
 thread_local! {
     static ENGINE: RefCell<Option<Flounder>> = RefCell::new(None);
@@ -116,6 +116,41 @@ fn extend_cmd(s: &mut Src, prev: &PosCmd) -> PosCmd {
     PosCmd { text, expected: last, history, nontrivial: prev.nontrivial || special > 0, fullmove: prev.fullmove, special_moves: special }
 }
 
+/// The previous game up to one of its promotions, that promotion made to ANOTHER piece (same from
+/// and to squares, another letter), then continued by 0..2 legal moves: a different game that shares
+/// a long prefix — and every from/to pair — with the one the engine was given last.
+fn relettered_cmd(s: &mut Src, prev: &PosCmd) -> Option<PosCmd> {
+    let toks: Vec<&str> = prev.text.split_whitespace().collect();
+    let mi = toks.iter().position(|t| *t == "moves")?;
+    let promos: Vec<usize> = (mi + 1..toks.len()).filter(|i| toks[*i].len() == 5).collect();
+    if promos.is_empty() {
+        return None;
+    }
+    let at = promos[s.below(promos.len())];
+    let old = toks[at].as_bytes()[4] as char;
+    let letters: Vec<char> = ['q', 'r', 'b', 'n'].into_iter().filter(|c| *c != old).collect();
+    let new_tok = format!("{}{}", &toks[at][..4], letters[s.below(3)]);
+    let mut text = toks[..at].join(" ");
+    text.push(' ');
+    text.push_str(&new_tok);
+    let hist = crate::script::ref_position(&text).ok()?;
+    let last = hist.last()?.clone();
+    let k = s.below(3);
+    let (steps, end) = gen::playout(s, &last, k);
+    for (_, m) in &steps {
+        text.push(' ');
+        text.push_str(&m.uci());
+    }
+    let mut history = hist.clone();
+    history.pop();
+    history.push(last);
+    history.extend(steps.iter().skip(1).map(|x| x.0.clone()));
+    if !steps.is_empty() {
+        history.push(end.clone());
+    }
+    Some(PosCmd { text, expected: end, history, nontrivial: true, fullmove: prev.fullmove, special_moves: prev.special_moves })
+}
+
 fn check(bytes: &[u8], stats: &mut Stats) -> Verdict {
     let mut s = Src::new(bytes);
     let ncmds = 1 + s.below(4);
@@ -130,7 +165,15 @@ fn check(bytes: &[u8], stats: &mut Stats) -> Verdict {
             2 => Some("isready"),
             _ => None,
         };
+        let relettered = match &prev {
+            Some(pc) if pc.special_moves > 0 && s.chance(25) => relettered_cmd(&mut s, pc),
+            _ => None,
+        };
         let c = match &prev {
+            _ if relettered.is_some() => {
+                stats.class("previous_game_with_one_promotion_made_to_another_piece");
+                relettered.unwrap()
+            }
             Some(pc) if s.chance(30) => {
                 stats.class("previous_command_repeated_or_continued");
                 if between == Some("ucinewgame") {
@@ -195,12 +238,197 @@ pub fn fuzz_entry(bytes: &[u8]) -> Verdict {
     check(bytes, &mut st)
 }
 
+/// Enumerated part 'grid-moves': positions of the check-geometry grid and of the castling-rights
+/// bookkeeping grid (grid.rs), given to the position command as a FEN followed by ONE move — every
+/// castle, en-passant capture, promotion (all four letters), double push and capture of a corner
+/// rook of the position, plus its first ordinary move — in UCI text: the move list parser and the
+/// successor meet every special move on every file.  One engine per worker thread (a position
+/// command sets everything it needs anew); commands of one item are sent in a row.
+fn judge_grid(it: &crate::grid::GridItem, stats: &mut Stats) -> Verdict {
+    let built = if it.fam == 5 { crate::grid::build_rights(it) } else { crate::grid::build(it) };
+    let Some(p) = built else {
+        stats.exclude("grid combination that is not a valid position");
+        return Ok(());
+    };
+    let mut moves: Vec<refchess::Mv> = Vec::new();
+    let mut ordinary = false;
+    for m in p.legal_moves() {
+        let i = p.info(m);
+        let special = i.castle || i.ep || i.promo || i.double_push || (i.capture && matches!(m.to, 0 | 7 | 56 | 63));
+        if special {
+            moves.push(m);
+        } else if !ordinary {
+            ordinary = true;
+            moves.push(m);
+        }
+    }
+    let h = crate::stats::hash_of(it);
+    let (half, full) = [(0u32, 1u32), (0, 1), (3, 40), (99, 120), (100, 300), (7, 4000)][(h % 6) as usize];
+    let plies = 2 * (full - 1) + if p.stm == refchess::Color::B { 1 } else { 0 };
+    let half = if p.ep.is_some() { 0 } else { half.min(plies) };
+    let fen = p.fen(half, full);
+    for m in moves {
+        let text = format!("position fen {} moves {}", fen, m.uci());
+        let expected = p.make(m);
+        let res = ENGINE.with(|e| {
+            let mut e = e.borrow_mut();
+            if e.is_none() {
+                *e = Some(Flounder::new());
+            }
+            let fl = e.as_mut().unwrap();
+            let r = std::panic::catch_unwind(std::panic::AssertUnwindSafe(|| {
+                fl.verif_handle_command(&text);
+                *fl.verif_board()
+            }));
+            if r.is_err() {
+                *e = None;
+            }
+            r
+        });
+        stats.eval();
+        let board = match res {
+            Ok(b) => b,
+            Err(pn) => return Err(Failure::new("position-command-panic", json!({"commands": [text], "panic": crate::panic_text(&pn)}))),
+        };
+        if let Err(why) = eng::compare_board(&board, &expected) {
+            return Err(Failure::new("wrong-position", json!({"commands": [text], "expected": expected.fen4(), "engine": eng::board_to_pos(&board).fen4(), "why": why})));
+        }
+        let i = p.info(m);
+        stats.class(if i.castle { "grid_move_castle" } else if i.ep { "grid_move_en_passant" } else if i.promo { "grid_move_promotion" } else if i.double_push { "grid_move_double_push" } else if i.capture { "grid_move_capture" } else { "grid_move_ordinary" });
+        if i.castle || i.ep || i.promo {
+            stats.nontrivial(&text);
+        }
+    }
+    Ok(())
+}
+
+/// Enumerated 'castle look-alikes': moves whose UCI text is that of a castle (e1g1 e1c1 e8g8 e8c8)
+/// or of the 'king takes rook' spelling some interfaces use (e1h1 e1a1 e8h8 e8a8), made by a ROOK or
+/// QUEEN standing on e1/e8 — the mover's own king elsewhere at home with every subset of its rights,
+/// or away from home — with and without an enemy man on the target square.
+fn castle_lookalikes() -> Vec<(Pos, refchess::Mv)> {
+    use refchess::{Color, Kind, Mv};
+    let mut out = Vec::new();
+    for mirrored in [false, true] {
+        for kind in [Kind::R, Kind::Q] {
+            for from in [4u8, 60u8] {
+                for tf in [0u8, 2, 6, 7] {
+                    for rights in 0..4u8 {
+                        for target in 0..2 {
+                            for own_king_home in [true, false] {
+                                let mut p = Pos::empty();
+                                p.stm = Color::W;
+                                // the white king: at home on e1 (then the piece stands on e8), or away
+                                let king_sq = if own_king_home { 4u8 } else { 22u8 };
+                                if own_king_home && from == 4 {
+                                    continue;
+                                }
+                                if !own_king_home && rights != 0 {
+                                    continue;
+                                }
+                                p.sq[king_sq as usize] = Some((Color::W, Kind::K));
+                                if own_king_home {
+                                    p.sq[7] = Some((Color::W, Kind::R));
+                                    p.sq[0] = Some((Color::W, Kind::R));
+                                    p.castle[0] = rights & 1 != 0;
+                                    p.castle[1] = rights & 2 != 0;
+                                }
+                                p.sq[from as usize] = Some((Color::W, kind));
+                                let to = (from / 8) * 8 + tf;
+                                if p.sq[to as usize].is_some() {
+                                    continue;
+                                }
+                                if target == 1 {
+                                    p.sq[to as usize] = Some((Color::B, Kind::N));
+                                }
+                                // the black king somewhere it is not attacked
+                                let mut placed = false;
+                                for bk in [41u8, 46, 33, 38, 25, 30, 49, 54] {
+                                    if p.sq[bk as usize].is_some() {
+                                        continue;
+                                    }
+                                    let mut q = p.clone();
+                                    q.sq[bk as usize] = Some((Color::B, Kind::K));
+                                    if q.is_valid() {
+                                        p = q;
+                                        placed = true;
+                                        break;
+                                    }
+                                }
+                                if !placed {
+                                    continue;
+                                }
+                                let m = Mv { from, to, promo: None };
+                                if !p.legal_moves().contains(&m) {
+                                    continue;
+                                }
+                                if mirrored {
+                                    out.push((p.mirror(), Mv { from: from ^ 56, to: to ^ 56, promo: None }));
+                                } else {
+                                    out.push((p, m));
+                                }
+                            }
+                        }
+                    }
+                }
+            }
+        }
+    }
+    out
+}
+
+fn judge_lookalike(item: &(Pos, refchess::Mv), stats: &mut Stats) -> Verdict {
+    let (p, m) = item;
+    let text = format!("position fen {} moves {}", p.fen(0, 1), m.uci());
+    let expected = p.make(*m);
+    let mut fl = Flounder::new();
+    let r = std::panic::catch_unwind(std::panic::AssertUnwindSafe(|| {
+        fl.verif_handle_command(&text);
+        *fl.verif_board()
+    }));
+    stats.eval();
+    let board = match r {
+        Ok(b) => b,
+        Err(pn) => return Err(Failure::new("position-command-panic", json!({"commands": [text], "panic": crate::panic_text(&pn)}))),
+    };
+    if let Err(why) = eng::compare_board(&board, &expected) {
+        return Err(Failure::new("wrong-position", json!({"commands": [text], "expected": expected.fen4(), "engine": eng::board_to_pos(&board).fen4(), "why": why})));
+    }
+    stats.class("castle_lookalike_moves_by_rook_or_queen");
+    stats.nontrivial(&text);
+    Ok(())
+}
+
 pub fn run(tier: Tier, seed: u64, known: &Known) -> PropRun {
     let mut run = PropRun::new("exploration", RULE);
     run.assumptions = vec![
         "halfmove clock <= 150 and fullmove number <= 6000 bound what a real game can reach".into(),
         "lines end in LF, tokens separated by spaces/tabs; only valid FENs and legal move lists are generated".into(),
     ];
+    // enumerated part first (quick tier: a seed-dependent share of the grids; thorough: all)
+    {
+        let mut items = crate::grid::rights_items();
+        items.extend(crate::grid::items());
+        let share: u64 = tier.pick(48, 1);
+        let items: Vec<crate::grid::GridItem> = items.into_iter().filter(|it| (crate::stats::hash_of(it) ^ seed) % (if it.fam == 5 || it.fam == 2 || it.fam == 7 { share / 8 + 1 } else { share }) == 0).collect();
+        run.stats.class_n("grid_items_taken", items.len() as u64);
+        let (st, fl) = crate::runner::run_enumerated("grid-moves", &items, threads(), seed, known, |it, st| judge_grid(it, st));
+        run.stats.merge(st);
+        if fl.is_some() {
+            run.failure = fl;
+            return run;
+        }
+    }
+    {
+        let items = castle_lookalikes();
+        run.stats.class_n("castle_lookalikes_enumerated", items.len() as u64);
+        let (st, fl) = crate::runner::run_enumerated("castle-lookalikes", &items, threads(), seed, known, |it, st| judge_lookalike(it, st));
+        run.stats.merge(st);
+        if fl.is_some() {
+            run.failure = fl;
+            return run;
+        }
+    }
     let part = Part { name: "commands", cases: tier.pick(8_000, 400_000), min_len: 16, max_len: 900, max_shrink: 600, threads: threads() };
     let (st, fl) = run_part(&part, seed, known, check);
     run.stats.merge(st);
